@@ -7,9 +7,8 @@ primitive read checks `size() < k` first), the stream's byte order (changed only
 0 or 1, otherwise *kept from the previous header*; initially the machine's = little endian) and
 `hasZ/hasM/inputDimension`, overwritten by every header and only used before the next header is
 read, hence local here.  Exceptions (`ParseException`, `IllegalArgumentException` from the geometry
-constructors) are the `Err` values; `ubEmptySection` marks the one place where the C++ has undefined
-behaviour instead of an exception (`CompoundCurve::validateConstruction` calls `front()/back()` on an
-empty section when there are at least two sections).
+constructors) are the `Err` values.  (`CompoundCurve::validateConstruction` used to call `front()/back()`
+on an empty section — undefined behaviour; since /repo 82860eb92 it throws instead, modelled as `construct`.)
 
 `readGeom` recurses on a fuel argument = the recursion depth still allowed; `read` supplies the input
 length + 1, which always suffices (each nesting level consumes at least five bytes; `Props/C11`).
@@ -24,7 +23,6 @@ inductive Err where
   | tooSmall         -- "Input buffer is smaller than requested object size" (minMemSize)
   | childType        -- readChild<T>: "Expected T but got ..."
   | construct        -- IllegalArgumentException from a geometry constructor
-  | ubEmptySection   -- undefined behaviour in CompoundCurve::validateConstruction
   | fuel             -- never returned by `read` (see `Props/C11`)
   | hex              -- readHEX: odd length / invalid character
 deriving DecidableEq, Repr, Inhabited
@@ -161,14 +159,16 @@ def seqOf : G → CSeq
   | .circularString s => s
   | _ => ⟨false, false, []⟩
 
-/-- `CompoundCurve::validateConstruction` -/
+/-- `CompoundCurve::validateConstruction`: for every pair of neighbouring sections, neither may be empty
+("Sections of CompoundCurve must not be empty") and the end of the first must equal (2D, by value) the
+start of the second.  A single section is not looked at. -/
 def checkContig : List G → Except Err Unit
   | [] => .ok ()
   | [_] => .ok ()
   | a :: b :: rest =>
     match (seqOf a).pts.getLast?, (seqOf b).pts.head? with
     | some e, some s => if Coord.eq2D s e then checkContig (b :: rest) else .error .construct
-    | _, _ => .error .ubEmptySection
+    | _, _ => .error .construct
 
 /-- `readPoint`'s "POINT EMPTY" rule -/
 def pointOfSeq (s : CSeq) : G :=
@@ -259,7 +259,7 @@ def readBody (arc : ArcOracle) (rd : Order → List UInt8 → GRes) (h : Hdr) (b
     match readU32 h.order bs with
     | .error e => .error e
     | .ok (n, bs) =>
-      if bs.length < n * 16 then .error .tooSmall else
+      if bs.length < n * 9 then .error .tooSmall else
       match readN (fun o bs => asChild isSimpleCurve (rd o bs)) n h.order bs with
       | .error e => .error e
       | .ok (gs, o, bs) =>
